@@ -140,6 +140,7 @@ func ToChannel[T any](size int) func(Observable[T]) Observable[<-chan Notificati
 				// This is a workaround to avoid a race condition between the
 				// destination.NextWithContext() and the destination.CompleteWithContext()
 				// on empty source.
+				verifPoint("tochannel.goroutine-start")
 				time.Sleep(1 * time.Millisecond)
 
 				subscriptions.AddUnsubscribable(
@@ -170,6 +171,7 @@ func ToChannel[T any](size int) func(Observable[T]) Observable[<-chan Notificati
 			// Because the observer might call be long-running.
 			// But on empty source, the destination.CompleteWithContext() might be
 			// called before the goroutine is started.
+			verifPoint("tochannel.before-handout")
 			destination.NextWithContext(context.TODO(), ch)
 
 			return func() {
